@@ -486,6 +486,19 @@ func (r *run) writer() {
 			// the application keeps quiet long enough for file.d to notice (the file is shorter
 			// than what was read); what it writes afterwards must all be delivered
 			simrt.Sleep(3*r.cfg.MaintIvl + 2*time.Second)
+			// ... and really has noticed: with a slow pipeline the single worker may be kept from the file for
+			// longer than that. A reader that has not looked at the file between the truncation and the moment the
+			// file has grown past its old position again cannot know about the truncation, whatever it does.
+			for waited := time.Duration(0); waited < 60*time.Second; waited += 200 * time.Millisecond {
+				off, has := int64(0), false
+				if n := len(r.plugins); n > 0 {
+					off, has = file.VerifReadOffset(r.plugins[n-1].(*file.Plugin), ino)
+				}
+				if !has || off == 0 {
+					break
+				}
+				simrt.Sleep(200 * time.Millisecond)
+			}
 		case "rotate":
 			if r.pend[op.File] != nil {
 				continue // applications finish the line before reopening their log
